@@ -196,4 +196,4 @@ def order_rules(ctx, rep):
         rep.fn(u.name)
         U = lookahead_tests(ctx, u, r"Escape::try_lfs_unescape$")
         rep.check("R12.3", "unescape:lookahead", len(U) == 1, "unescape must translate the peeked character after a caret (found %d sites)" % len(U), u.loc())
-    rep.floor("R12.3", 8)
+    rep.floor("R12.3", 5)
